@@ -39,6 +39,10 @@ let () =
         (match O.load_file (coq_of_string line) with
          | Some ld -> cur := Some ld; print_string "#\tloaded\t\n"
          | None -> cur := None; print_string "#\tloadfail\t\n")
+      end else if starts_with "(parse " line || starts_with "(parse-rules " line then begin
+        (* parser model: needs no loaded file *)
+        print_string (string_of_coq (O.parse_line (coq_of_string line)));
+        print_char '\n'
       end else begin
         (match !cur with
          | Some ld -> print_string (string_of_coq (O.run_case ld (coq_of_string line)))
